@@ -179,6 +179,49 @@ def _is_noreturn_call(st: ast.stmt) -> bool:
     return isinstance(st, ast.Expr) and isinstance(st.value, ast.Call) and dotted(st.value.func).split('.')[-1] in NORETURN_NAMES
 
 
+def _filtered_iteration_facts(fn: ast.AST, loop: ast.For) -> List[str]:
+    """the filter conditions of the sequence a `for` loop walks, phrased over the loop variable: the sequence is an identity
+    comprehension `[v for v in X if C ...]`, written in the loop header or bound to a local exactly once and only read since."""
+    from .pyfacts import clone
+    it: ast.AST = loop.iter
+    if isinstance(it, ast.Name):
+        name = it.id
+        stores = [n for n in walk_no_nested(fn) if isinstance(n, ast.Name) and n.id == name and isinstance(n.ctx, ast.Store)]
+        defs = [n for n in walk_no_nested(fn) if isinstance(n, ast.Assign) and len(n.targets) == 1 and isinstance(n.targets[0], ast.Name)
+                and n.targets[0].id == name]
+        if len(stores) != 1 or len(defs) != 1:
+            return []
+        # only read: no method call on it, no subscript store, not passed on
+        for n in walk_no_nested(fn):
+            if isinstance(n, ast.Name) and n.id == name and isinstance(n.ctx, ast.Load):
+                par = getattr(n, '_parent', None)
+                if par is loop or (isinstance(par, ast.Call) and isinstance(par.func, ast.Name) and par.func.id in ('len', 'bool', 'any', 'all')):
+                    continue
+                if isinstance(par, (ast.UnaryOp, ast.If, ast.Compare, ast.BoolOp)):
+                    continue
+                return []
+        it = defs[0].value
+    if not isinstance(it, (ast.ListComp, ast.GeneratorExp)) or len(it.generators) != 1:
+        return []
+    g = it.generators[0]
+    if not (isinstance(g.target, ast.Name) and isinstance(it.elt, ast.Name) and it.elt.id == g.target.id) or g.is_async:
+        return []
+    tv, lv = g.target.id, loop.target.id          # type: ignore[attr-defined]
+    if any(isinstance(x, ast.Name) and isinstance(x.ctx, ast.Store) and x.id == lv for st in loop.body for x in ast.walk(st)):
+        return []
+
+    class R(ast.NodeTransformer):
+        def visit_Name(self, node: ast.Name) -> ast.AST:
+            return ast.copy_location(ast.Name(id=lv, ctx=node.ctx), node) if node.id == tv else node
+    out = []
+    for c in g.ifs:
+        e = R().visit(clone(c))
+        out.append(norm(e))
+        if isinstance(e, ast.BoolOp) and isinstance(e.op, ast.And):
+            out.extend(norm(v) for v in e.values)
+    return out
+
+
 def dominating_guards(site_node: ast.AST) -> List[Tuple[str, bool]]:
     """(normalised test, polarity) of conditions known at the site from lexical structure:
     enclosing `if T:` -> (T, True) / else-branch -> (T, False); earlier sibling `if T: raise/return/continue` -> (T, False)."""
@@ -213,8 +256,9 @@ def dominating_guards(site_node: ast.AST) -> List[Tuple[str, bool]]:
                 if v is child:
                     break
                 out.append((norm(v), True))
-        if isinstance(a, (ast.comprehension,)):
-            pass
+        # `for t in [v for v in X if C]` (the list possibly named once first): C holds of t in the loop body
+        if isinstance(a, ast.For) and isinstance(a.target, ast.Name) and any(child is s for s in a.body) and fn0 is not None:
+            out.extend((c, True) for c in _filtered_iteration_facts(fn0, a))
         for fld in ('body', 'orelse', 'finalbody'):
             seq = getattr(a, fld, None)
             if isinstance(seq, list) and any(child is s for s in seq):
